@@ -11,6 +11,7 @@ package sched
 
 import (
 	"fmt"
+	"os"
 	"runtime"
 	"sort"
 	"strings"
@@ -68,7 +69,10 @@ type S struct {
 	// ModeB: firing the earliest pending timer although some thread is enabled is an explored deviation (cost 1).
 	ModeB     bool
 	TimeJumps int
-	wg        sync.WaitGroup
+	// DelayBounded (default): every departure from the deterministic base scheduler costs one deviation
+	// (delay-bounded scheduling); otherwise only preemptions of a runnable thread cost (context bounding).
+	DelayBounded bool
+	wg           sync.WaitGroup
 }
 
 type timer struct {
@@ -86,7 +90,7 @@ var (
 
 // Start creates the scheduler for one execution.
 func Start(ch Chooser, start time.Time, horizon time.Duration, maxSteps int, trace bool) *S {
-	s := &S{ch: ch, now: start, horizon: start.Add(horizon), maxSteps: maxSteps, traceOn: trace, mainDone: make(chan struct{}), states: map[uint64]struct{}{}}
+	s := &S{DelayBounded: true, ch: ch, now: start, horizon: start.Add(horizon), maxSteps: maxSteps, traceOn: trace, mainDone: make(chan struct{}), states: map[uint64]struct{}{}}
 	mu.Lock()
 	G = s
 	mu.Unlock()
@@ -121,7 +125,17 @@ func (s *S) Run(body func()) {
 		body()
 	}()
 	main.wake <- struct{}{}
-	<-s.mainDone
+	select {
+	case <-s.mainDone:
+	case <-time.After(watchdog): // real time: a lost baton is a bug of the scheduler itself
+		for _, l := range s.Trace {
+			fmt.Fprintln(os.Stderr, "TRACE", l)
+		}
+		for _, t := range s.threads {
+			fmt.Fprintf(os.Stderr, "THREAD %d %s st=%d desc=%s\n", t.ID, t.Name, t.st, t.desc)
+		}
+		panic("sched: execution made no progress for 60 s of real time (scheduler bug or uninstrumented blocking call)")
+	}
 	s.wg.Wait() // every goroutine of this execution has unwound (teardown mode) before the next one starts
 }
 
@@ -149,7 +163,7 @@ func (s *S) Go(name string, f func()) {
 		defer s.exitThread(t)
 		f()
 	}()
-	s.Yield("go "+name, nil)
+	// no scheduling point here: the child is runnable from now on and the parent's next visible operation has a point in front of it
 }
 
 // GoClient spawns a thread whose completion is awaited by the harness.
@@ -169,7 +183,6 @@ func (s *S) GoClient(name string, f func()) {
 		defer s.exitThread(t)
 		f()
 	}()
-	s.Yield("go "+name, nil)
 }
 
 type killed struct{}
@@ -272,17 +285,21 @@ func (s *S) next() bool {
 			s.now = next
 			continue
 		}
-		// canonical order: running thread first if enabled, then ascending ids
+		// canonical order: the running thread first if it is enabled, then the others round-robin after it
 		cur := s.cur
 		curEnabled := false
-		sort.Slice(en, func(i, j int) bool { return en[i].ID < en[j].ID })
-		for i, t := range en {
-			if t == cur {
-				curEnabled = true
-				en[0], en[i] = en[i], en[0]
-				sort.Slice(en[1:], func(a, b int) bool { return en[1+a].ID < en[1+b].ID })
-				break
+		sort.Slice(en, func(i, j int) bool {
+			a, b := en[i].ID-cur.ID, en[j].ID-cur.ID
+			if a < 0 {
+				a += 1 << 20
 			}
+			if b < 0 {
+				b += 1 << 20
+			}
+			return a < b
+		})
+		if en[0] == cur {
+			curEnabled = true
 		}
 		if s.ModeB {
 			if nextT, ok := s.earliest(); ok && !nextT.After(s.horizon) {
@@ -296,8 +313,11 @@ func (s *S) next() bool {
 		}
 		k := 0
 		if len(en) > 1 {
-			if curEnabled {
-				k = s.ch.Choose(len(en)) // leaving a runnable thread is a preemption
+			if curEnabled || s.DelayBounded {
+				// preemption bounding: leaving a runnable thread costs one deviation.
+				// delay bounding (default): the base scheduler is deterministic (continue, else round-robin);
+				// every departure from it, also when the running thread blocked, costs one deviation.
+				k = s.ch.Choose(len(en))
 				if k != 0 {
 					s.Preemptions++
 				}
@@ -470,5 +490,24 @@ func (s *S) SpawnFromTimer(name string, f func()) {
 func (s *S) Tracef(format string, a ...any) {
 	if s != nil {
 		s.tracef(format, a...)
+	}
+}
+
+// Live returns the number of threads that have not finished.
+func (s *S) Live() int {
+	n := 0
+	for _, t := range s.threads {
+		if t.st != stDone {
+			n++
+		}
+	}
+	return n
+}
+
+var watchdog = 60 * time.Second
+
+func init() {
+	if os.Getenv("VERIF_SCHED_WATCHDOG") != "" {
+		watchdog = 5 * time.Second
 	}
 }
